@@ -119,7 +119,8 @@ var registry = map[string]func(t *testing.T, c *Collector){
 		c.res.Rule = "fsck (independent reader of every file format) on every quiescent state reached: after Flush against the live bucket table, after Close against snapshot and rescan; histories as in C04; non-trivial = a GC op mutated the file system"
 		runSeqScenarios(c, gcScenarios("C07", c.job.Tier))
 		runCrashScenarios(c, c03Scenarios("C07", c.job.Tier))
-		c.res.Engine = "S + X (fsck on every quiescent state of the GC history enumeration and on every recovered crash image)"
+		runConcScenarios(t, c, c07ConcScenarios(c.job.Tier))
+		c.res.Engine = "S + X + A (fsck on every quiescent state of the GC history enumeration, on every recovered crash image, and at quiescence of every interleaving of the C06 scenarios with one preemption less)"
 	},
 	"C13": func(t *testing.T, c *Collector) {
 		c.res.Rule = "freed-location ledger on every history of the C04 universe: the multiset of locations that stopped being current must equal the multiset of entries ever appended to the freelist (from the MemFS log) and, after a complete cycle, the multiset presented to the primary GC; non-trivial = at least one location was superseded"
